@@ -41,6 +41,14 @@ impl<A: Tracker> PieInternal<A> {
   pub fn resource_state_mut<R: Resource>(&mut self) -> &mut impl ResourceState<R> { &mut self.resource_state }
 }
 
+#[cfg(feature = "gohla_pie_verif")]
+impl<A> PieInternal<A> {
+  /// Verification hook: read-only walk over the dependency store.
+  pub fn verif_visit_store(&self, visitor: &mut dyn crate::store::verif::VerifStoreVisitor) {
+    self.store.verif_visit(visitor);
+  }
+}
+
 /// Internals for [`Session`].
 pub struct SessionInternal<'p> {
   pub store: &'p mut Store,
